@@ -1,14 +1,14 @@
 SPECIFICATION Spec
 CONSTANTS
   Threads = {1, 2, 3}
-  Prog <- ProgRz1
+  Prog <- ProgClr3
   HashOf <- HashId
   InitKeys <- Init1
-  N0 = 2
+  N0 = 4
   DCAP = 2
-  MaxNodes = 8
+  MaxNodes = 10
   MaxTabs = 2
-  STRIDE = 1
+  STRIDE = 4
   MAXRES = 100
   STAMPCHECK = TRUE
   ACSTAMPCHECK = TRUE
@@ -22,6 +22,6 @@ CONSTANTS
   XSKIP = FALSE
   CLRWAIT = TRUE
 INVARIANTS Linearizable NoDeadlock ResizeSafe QuiescentOK ReadersNeverBlock IterWeak GhostOK
-PROPERTY NeverShrinks
+PROPERTY NeverShrinks ClearSafe
 VIEW view
 CHECK_DEADLOCK FALSE
